@@ -64,7 +64,7 @@ def _runtime_fail(r):
         src = r.choice(['{f}(1)', '{f}()', '1 | {f}', '(1).{f}()', 'l.{f}(2)', 'l | {f}(2)', 'x = {f}(l)', '[{f}(1)]', 'map(l, v => {f}(v))',
                         '1 + {f}(2)', 'len({f}(1))', 'd["k"] = {f}()']).format(f=fn)
     elif k == 'missing_key':
-        src = r.choice(['hk["zz"]', 'hk[7]', 'dict(enumerate(l))["zz"]', 'dict([[1, "a"]])[5]', 'mp["zz"]', 'cm["zz"]', 'ud["zz"]', 'x = ud[5]', 'd["zz"]', 'd[5]', 'd[None]', 'x = d["zz"]', 'd["a"]["zz"]', 'len(d["zz"])', 'map(l, v => d[v])', 'd[1.0]', '{}["a"]', '{"a": 1}["b"]'])
+        src = r.choice(['hk20["zz"]', 'hk20[99]', 'x = hk20["b"]', 'hk["zz"]', 'hk[7]', 'dict(enumerate(l))["zz"]', 'dict([[1, "a"]])[5]', 'mp["zz"]', 'cm["zz"]', 'ud["zz"]', 'x = ud[5]', 'd["zz"]', 'd[5]', 'd[None]', 'x = d["zz"]', 'd["a"]["zz"]', 'len(d["zz"])', 'map(l, v => d[v])', 'd[1.0]', '{}["a"]', '{"a": 1}["b"]'])
     elif k == 'index_out_of_range':
         src = r.choice(['tp[5]', 'tp[-3]', 'l[9]', 'l[-9]', 'l[3]', 'x = l[99]', '[][0]', 's[99]', 'l[0][5]' if False else 'n[0][5]', 'map([7], v => l[v])', 'l[2.0 + 1]', '[1, 2][2]',
                         'l[10 ** 5000]', 's[0 - 10 ** 4400]', 'l[hugei]', 'tp[10 ** 4999]'])
@@ -157,6 +157,7 @@ def _names(with_big=False):
          'tp': (1, 2), 'hk': {1: 10, 2.5: 'x', None: 0, 'a': 1}}
     n['l30'] = list(range(30))
     n['fz'] = 9.0
+    n['hk20'] = dict([(i, i) for i in range(18)] + [('a', 1), ((1, 2), 3)])
     n['hugei'] = 10 ** 5000
     if with_big:
         n['big'] = list(range(10000))
